@@ -17,6 +17,7 @@ import (
 	"go.uber.org/zap"
 
 	"github.com/ava-labs/hypersdk/event"
+	"github.com/ava-labs/hypersdk/internal/verifhook"
 )
 
 var (
@@ -191,6 +192,7 @@ func (b *StatefulBlock[I, O, A]) Verify(ctx context.Context) error {
 }
 
 func (b *StatefulBlock[I, O, A]) verifyWithContext(ctx context.Context, pChainCtx *block.Context) error {
+	verifhook.AwaitLock("snow.chainLock.verifyWithContext", 0, &b.vm.chainLock)
 	b.vm.chainLock.Lock()
 	defer b.vm.chainLock.Unlock()
 
@@ -309,6 +311,7 @@ func verifyPChainCtx(providedCtx, innerCtx *block.Context) error {
 // [verifiedBlocks]: https://github.com/ava-labs/hypersdk/blob/ae0c960050860ad72468e5c3687966366582ba1a/snow/vm.go#L165
 // implements "snowman.Block.choices.Decidable"
 func (b *StatefulBlock[I, O, A]) Accept(ctx context.Context) error {
+	verifhook.AwaitLock("snow.chainLock.Accept", 0, &b.vm.chainLock)
 	b.vm.chainLock.Lock()
 	defer b.vm.chainLock.Unlock()
 
@@ -369,6 +372,7 @@ func (b *StatefulBlock[I, O, A]) SyncAccept(ctx context.Context) error {
 
 func (b *StatefulBlock[I, O, A]) queueAccept() {
 	b.vm.acceptedQueueBlocksProcessedWg.Add(1)
+	verifhook.YieldK("snow.queueAccept", b.Input.GetHeight())
 	b.vm.acceptedQueue <- b
 }
 
